@@ -141,6 +141,10 @@ class walk_tree(object):
                             # Is the matched segment the beginning of a loop?
                             if node.is_loop() \
                                     and self._is_loop_match(node, seg_data, errh, seg_count, cur_line, ls_id):
+                                if not (orig_node.is_loop() or orig_node.is_map_root()):
+                                    # coming from a segment of the instance being left: it never gets
+                                    # another look at its required children
+                                    self._note_missing_children(node, seg_count, cur_line, ls_id)
                                 (
                                     node1, push_node_list) = self._goto_seg_match(node, seg_data,
                                                                                   errh, seg_count, cur_line, ls_id)
@@ -261,6 +265,32 @@ class walk_tree(object):
                 errh.add_seg(seg_node, seg_data, seg_count, cur_line, ls_id)
                 errh.seg_error(err_cde, err_str, None)
         self.mandatory_segs_missing = [x for x in self.mandatory_segs_missing if x[0].pos == cur_pos]
+
+    def _note_missing_children(self, loop_node, seg_count, cur_line, ls_id):
+        """
+        The loop starts again with its first segment: required segments and loops
+        that the instance being left does not have are missing
+
+        @param loop_node: Loop Node
+        @type loop_node: L{node<map_if.loop_if>}
+        """
+        pending = [x[0] for x in self.mandatory_segs_missing]
+        for ord1 in sorted(loop_node.pos_map):
+            for child in loop_node.pos_map[ord1]:
+                if child.usage != 'R':
+                    continue
+                if child.is_segment():
+                    first_node = child
+                    err_str = 'Mandatory segment "%s" (%s) missing' % (child.name, child.id)
+                elif child.is_loop() and len(child) > 0 and child.get_first_node().is_segment():
+                    first_node = child.get_first_node()
+                    err_str = 'Mandatory loop "%s" (%s) missing' % (child.name, child.id)
+                else:
+                    continue
+                if self.counter.get_count(child.x12path) >= 1 or first_node in pending:
+                    continue
+                fake_seg = pyx12.segment.Segment('%s' % (first_node.id), '~', '*', ':')
+                self.mandatory_segs_missing.append((first_node, fake_seg, '3', err_str, seg_count, cur_line, ls_id))
 
     def _is_loop_match(self, loop_node, seg_data, errh, seg_count, cur_line, ls_id):
         """
